@@ -19,7 +19,7 @@ RULE = (
   "evaluation = one compared Data pair; non-trivial = the dirty Data's last step had more contacts/rows than the copied state needs (stale tail exists)"
 )
 ASSUMPTIONS = ["same model and capacities for A, B, F; cases with a capacity overflow bit are discarded", "CPU device, same batch layout, hence bitwise equality is demanded"]
-BUDGET = {"quick": dict(examples=240, seconds=150, workers=16), "thorough": dict(examples=5000, seconds=1500, workers=16)}
+BUDGET = {"quick": dict(examples=240, seconds=420, workers=16), "thorough": dict(examples=5000, seconds=1500, workers=16)}
 _CAP = int(OT.NEFC | OT.NJMAX_NNZ | OT.BROADPHASE | OT.NARROWPHASE | OT.CCD | OT.NVMAX | OT.HFIELD | OT.EPA_HORIZON | OT.CONTACT_MATCH)
 _OUT = ["qpos", "qvel", "act", "time", "qacc_warmstart", "qacc", "sensordata", "act_dot", "qfrc_constraint", "qfrc_passive", "qfrc_actuator", "energy"]
 
